@@ -296,3 +296,39 @@ pub fn all_forced(name: &str, key: &str, n0: usize, label: &str) -> usize {
     }
     n
 }
+
+/// two serialisable values are equal: byte-identical images (identical terms), else atom-wise validity
+pub fn same<A: serde::Serialize, B: serde::Serialize>(name: &str, key: &str, a: &A, b: &B) -> bool {
+    let (la, lb) = (atoms::layout(a), atoms::layout(b));
+    if la.bytes == lb.bytes {
+        eng::prove(name, key, &F::True);
+        return true;
+    }
+    if la.bytes.len() != lb.bytes.len() {
+        eng::finding(key, &format!("{}: images have different lengths ({} vs {})", name, la.bytes.len(), lb.bytes.len()), None, json!({"kind":"model"}));
+        return false;
+    }
+    let (aa, ab) = (atoms::atoms_of_layout(&la), atoms::atoms_of_layout(&lb));
+    let mut mask_a = la.bytes.clone();
+    let mut mask_b = lb.bytes.clone();
+    for x in aa.iter().chain(ab.iter()) {
+        for i in x.off..x.off + x.width {
+            mask_a[i] = 0;
+            mask_b[i] = 0;
+        }
+    }
+    if aa.len() != ab.len() || mask_a != mask_b {
+        eng::finding(key, &format!("{}: the two images differ outside their atoms (integers / layout)", name), None, json!({"kind":"model"}));
+        return false;
+    }
+    let mut ok = true;
+    for (x, y) in aa.iter().zip(ab.iter()) {
+        if x.kind != y.kind || x.off != y.off {
+            eng::finding(key, &format!("{}: atom layout differs at {}", name, x.path), None, json!({"kind":"model"}));
+            return false;
+        }
+        ok &= eng::prove(&format!("{} [{}]", name, x.path), key, &eq(Scalar::from_term(x.term()), Scalar::from_term(y.term())));
+    }
+    ok
+}
+
